@@ -448,7 +448,7 @@ pub fn run(ctx: &Ctx, which: Which) {
     if which == Which::C16 {
         // C16: the operation pairs are the curated ones (the recorded finding is keyed by the pair of operation names,
         // so the explored pairs form a fixed finite set); the schedules are random and deeper than in (a)
-        let cases = ctx.tier.pick(4_000u64, 150_000u64);
+        let cases = ctx.tier.pick(8_000u64, 150_000u64);
         let npairs = pairs.len();
         let strat = (0..npairs.max(1), proptest::collection::vec(prop_oneof![6 => Just(0u8), 2 => 1u8..3, 1 => any::<u8>()], 0..160));
         run_prop(ctx, "random-schedules", cases, strat, |(pi, schedule), st| {
@@ -467,7 +467,7 @@ pub fn run(ctx: &Ctx, which: Which) {
         });
         return;
     }
-    let cases = ctx.tier.pick(3_000u64, 120_000u64);
+    let cases = ctx.tier.pick(10_000u64, 150_000u64);
     let strat = (
         proptest::collection::vec(proptest::collection::vec(cop_strategy(), 1..3), 2..4),
         proptest::collection::vec(prop_oneof![6 => Just(0u8), 2 => 1u8..3, 1 => any::<u8>()], 0..120),
